@@ -57,13 +57,16 @@ class LegacyOKPort(PortExtras):
         return self.q.pop(0).encode("ascii") if self.q else b""
 
     def close(self):
-        pass
+        if getattr(self, "close_raises", False):
+            import serial
+            raise serial.SerialException("injected close failure (device already gone)")
 
 
 class EchoPort(PortExtras):
     """EBB3 'future syntax' board: every reply starts with the request's name; queries carry a payload"""
 
-    def __init__(self, qe=(0, 0), delay=0):
+    def __init__(self, qe=(0, 0), delay=0, close_raises=False):
+        self.close_raises = close_raises
         self.writes = []
         self.q = []
         self.qe = qe
@@ -87,4 +90,6 @@ class EchoPort(PortExtras):
         return self.q.pop(0).encode("ascii") if self.q else b""
 
     def close(self):
-        pass
+        if getattr(self, "close_raises", False):
+            import serial
+            raise serial.SerialException("injected close failure (device already gone)")
